@@ -136,7 +136,7 @@ class Run:
         print(f"{self.prop} [{self.tier}] states={self.states} transitions={self.transitions} "
               f"records_judged={self.traces} classes={len(self.classes)} violations={len(unknown)} "
               f"known={len(known_hits)} wall={ev['wall_s']}s")
-        if missing:
+        if missing and not unknown:          # a reported violation takes precedence over the vacuity guard
             raise Machinery(f"vacuity guard: {len(missing)} mandatory aliasing class(es) have no record")
         return 1 if unknown else 0
 
